@@ -71,7 +71,7 @@ VARIABLES
    cur, conc curProcessing, concurrency
    gen       generation of the current signal channel;  chanNil: eventLoopSignal == nil
    sigTok    generation -> 0..1 tokens buffered;  sigClosed: generation -> BOOLEAN
-   lc        holder of the lifecycle mutex (Stop / Restart)
+   lc        holder of the lifecycle mutex (Stop / Restart);  sm: holder of the start mutex (start(): check Initiated ... store Running)
    mx        holder of w.mx ("none" or a process);  cond: processes parked in Cond.Wait
    q         queue -> contents Seq(job);  qclosed: queue -> BOOLEAN;  nreg: queues registered with the manager (1..nreg);
    rr        the manager's round-robin cursor (0-based index of the queue to look at next)
@@ -144,7 +144,7 @@ Init ==
   /\ S = [ws |-> IF NoBind THEN "initiated" ELSE "running", cur |-> 0, conc |-> Conc0, gen |-> 0, chanNil |-> FALSE,
           sigTok |-> [g \in Gens |-> IF g = 0 /\ ~NoBind THEN 1 ELSE 0],     \* start()'s deferred notify
           sigClosed |-> [g \in Gens |-> FALSE],
-          mx |-> "none", lc |-> "none", cond |-> {}, q |-> [k \in Queues |-> <<>>], qclosed |-> [k \in Queues |-> FALSE],
+          mx |-> "none", lc |-> "none", sm |-> "none", cond |-> {}, q |-> [k \in Queues |-> <<>>], qclosed |-> [k \in Queues |-> FALSE],
           nreg |-> IF NoBind THEN 0 ELSE NQ, rr |-> 0,
           idle |-> IF NoBind THEN <<>> ELSE <<1>>, nch |-> [n \in Nodes |-> <<>>], cache |-> {}, used |-> IF NoBind THEN {} ELSE {1},
           jst |-> [j \in Jobs |-> "created"], jwg |-> [j \in Jobs |-> 1], hd |-> {}, nohd |-> {}, bhd |-> {},
@@ -301,8 +301,7 @@ C_Bind(c) ==
 B_Reg(c) ==
   /\ c \in Clients /\ S.pc[c] = "mgr.register"
   /\ LET s1 == [S EXCEPT !.nreg = @ + 1] IN
-       IF S.ws # "initiated" THEN S' = Fin(s1, c) /\ H' = HFin(c, "nil")
-       ELSE S' = [s1 EXCEPT !.pc[c] = "start.enter"] /\ UNCHANGED H
+       S' = [s1 EXCEPT !.pc[c] = "i.start"] /\ UNCHANGED H        \* the deferred start()
 
 \* an op on the handle of a job whose Add was rejected: there is no handle, nothing is called
 C_NoHandle(c) ==
@@ -588,9 +587,9 @@ RS_Start(p) ==
   /\ S' = [S EXCEPT !.pc[p] = "i.start"]
   /\ UNCHANGED H
 I_Start(p) ==
-  /\ S.pc[p] = "i.start"
+  /\ S.pc[p] = "i.start" /\ S.sm = "none"
   /\ IF S.ws # "initiated" THEN S' = Pop([S EXCEPT !.lc = IF S.lc = p THEN "none" ELSE @], p) /\ H' = HPop(p, "ErrRunningWorker")
-     ELSE S' = [S EXCEPT !.pc[p] = "start.enter"] /\ UNCHANGED H
+     ELSE S' = [S EXCEPT !.sm = p, !.pc[p] = "start.enter"] /\ UNCHANGED H
 \* goEventLoop, goRemoveIdleWorkers, goListenToContext, initPoolNode (Cache.Get: a cached node or a new one)
 Unborn(sq) == {i \in DOMAIN sq : S.pc[sq[i]] = "unborn"}
 FirstUnborn(sq) == sq[CHOOSE i \in Unborn(sq) : \A k \in Unborn(sq) : i <= k]   \* ids are allocated in order
@@ -630,7 +629,7 @@ ST_Fin(p) ==
 ST_Notify(p) ==
   /\ S.pc[p] = "i.start.notify" /\ MxFree
   /\ LET s1 == NotifyS(S) IN
-       S' = Pop([s1 EXCEPT !.lc = IF s1.lc = p THEN "none" ELSE @], p)
+       S' = Pop([s1 EXCEPT !.lc = IF s1.lc = p THEN "none" ELSE @, !.sm = "none"], p)
   /\ H' = HPop(p, "nil")
 
 ---- \* cancelling the user's context (client op) and the context listener
@@ -894,7 +893,7 @@ Crash ==
   /\ Adapter /\ S.crashes < MaxCrash
   /\ S' = [S EXCEPT !.ws = "running", !.cur = 0, !.conc = Conc0, !.gen = 0, !.chanNil = FALSE,
                     !.sigTok = [g \in Gens |-> IF g = 0 THEN 1 ELSE 0], !.sigClosed = [g \in Gens |-> FALSE],
-                    !.mx = "none", !.lc = "none", !.cond = {}, !.q = [S.q EXCEPT ![1] = Redeliver \o @], !.unacked = {}, !.qclosed = [k \in Queues |-> FALSE], !.rr = 0,
+                    !.mx = "none", !.lc = "none", !.sm = "none", !.cond = {}, !.q = [S.q EXCEPT ![1] = Redeliver \o @], !.unacked = {}, !.qclosed = [k \in Queues |-> FALSE], !.rr = 0,
                     !.idle = <<1>>, !.nch = [n \in Nodes |-> <<>>], !.cache = {}, !.used = {1},
                     !.msub = 0, !.mcomp = 0, !.msucc = 0, !.mfail = 0, !.tick = IF Expiry THEN {0} ELSE {},
                     !.pc = [p \in Procs |-> IF p \in Clients THEN "done" ELSE IF p = DispSeq[1] THEN "loop.start" ELSE IF p = PGSeq[1] THEN "recv"
